@@ -201,6 +201,10 @@ func float32Boundary() []float32 {
 	add(math.Float32frombits(0xFFC00000))
 	add(math.Float32frombits(0x7FFFFFFF))
 	add(math.Float32frombits(0x7FA00001))
+	// the float32 whose shortest decimal text, read as a float64 and then narrowed, rounds twice (to 0x15ae43fe):
+	// a text must be parsed at the value's own bit size
+	add(math.Float32frombits(0x15ae43fd))
+	add(math.Float32frombits(0x95ae43fd))
 	return out
 }
 
